@@ -193,6 +193,9 @@ def main():
                 else:
                     cur.clear()
                     cur.update(op["val"])
+            elif kind == "lock":             # cluster.locked = on (versions already calculated are frozen, no new memento functions)
+                from twosigma.memento.configuration import Environment
+                Environment.get().get_cluster(op.get("cluster", "vz")).locked = bool(op["on"])
             elif kind == "delname":
                 delattr(mod, op["name"])
             elif kind == "alias":
